@@ -99,3 +99,19 @@ Lemma fix_keeps_unique_shared_refuted :
   snd r = None /\ wit_shared_vn 2 = Some s_x1 /\ (forall u, In u [0; 1] -> wit_shared_vn u <> Some s_x1) /\
   f_vn (fst r) 2 <> Some s_x1.
 Proof. vm_compute. repeat split; try discriminate. intros u [<-|[<-|[]]]; discriminate. Qed.
+
+(* (6) the STRONGER reading of "visible" (every value of an enclosing graph, also those defined by LATER nodes): an
+   unnamed value inside a subgraph and an unnamed output of a later node of the enclosing graph both get the
+   unsuffixed name v when the enclosing node's own output is explicitly named - on a sorted, well-scoped model.
+   Under the adopted reading (ONNX lexical scoping, what onnx.checker enforces: a subgraph sees the enclosing
+   graph's inputs, initializers and the outputs of nodes up to the enclosing node) this is not a collision. *)
+Definition wit_later_graph :=
+  Graph 0 false [0] [] [Node 0 [Some 0] [1] [Graph 1 false [] [] [Node 1 [Some 0] [2] []]]; Node 2 [Some 1] [3] []].
+Definition wit_later_vn := of_alist None [(0, Some s_x); (1, Some [105])].
+Definition wit_later_nn := of_alist None [(0, Some [97]); (1, Some [98]); (2, Some [99])].
+Definition wit_later_own := of_alist None [(0, Some 0); (1, Some 0); (2, Some 1); (3, Some 0)].
+
+Lemma fix_post_later_outer_refuted :
+  let r := name_fix_pass wit_later_graph [] wit_later_own (fun _ => 0) (fun _ => 0) wit_later_vn wit_later_nn [] in
+  snd r = None /\ f_vn (fst r) 2 = Some s_v /\ f_vn (fst r) 3 = Some s_v.
+Proof. vm_compute. auto. Qed.
